@@ -24,9 +24,9 @@ class C10(CurveCheck):
                   "'key derivation clears the cofactor on the point') and hold for EVERY group satisfying the EdLaws record "
                   "(_partial); that curve25519-dalek's / the executable model's arithmetic is such a group is NOT proved, "
                   "it is checked by computation: model = implementation = independent python reference on every case. "
-                  "Evaluator A (coqc) re-evaluates curve cases only in the thorough tier (>= 25 s per scalar multiplication)")
-    evalA_lines = ()
-    evalA_lines_thorough = ("derive %s %s" % (ONE, T1),)
+                  "Evaluator A (coqc vm_compute) re-evaluates one derive case per run (two in the thorough tier; >= 25 s per scalar multiplication), no uniform sample")
+    evalA_lines = ("derive %s %s" % (ONE, T1),)
+    evalA_lines_thorough = ("derive %s %s" % (le(2).hex(), ed.compress(ed.B).hex()),)
 
     def gen_cases(self, tier, rng):
         q = tier == "quick"
@@ -35,6 +35,7 @@ class C10(CurveCheck):
         G = ed.compress(ed.B)
         # corpus: the vector of onetime_key.rs tests (view key, spend key from its secret, tx pubkey, index 1)
         cs.append(Case("derive %s %s" % (ONE, T1), "corpus"))
+        cs.append(Case("derive %s %s" % (le(2).hex(), G.hex()), "corpus"))
         cs.append(Case("onetime %s bcfdda53205318e1c14fa0ddca1a45df363bb427972981d0249d0f4652a7df07 "
                        "5d1402db663eda8cef4f6782b66321e4a990f746aca249c973e098ba2c0837c1 1"
                        % hx(ed.compress(ed.mul(int.from_bytes(bytes.fromhex(
